@@ -48,7 +48,8 @@ Next ==
 AllConsumed == TLCGet("stats").diameter = Len(Trace) + 1
 (* multicast players (driver TestMulticast; they share one proxy consumer; datagrams cannot be received in the sandbox):
      [e |-> "mcast-end", t, players_ok, consumers_while_playing, closed: <<BOOLEAN>>]    the publisher left: was each player's connection closed?
-     [e |-> "mcast-leave", t, players_ok, consumers_after_first_left, second_still_connected, consumers_after_all_left]   the first of two players left, then the second *)
+     [e |-> "mcast-leave", t, players_ok, consumers_after_first_left, second_still_connected, consumers_after_all_left]   the first of two players left, then the second
+     [e |-> "mcast-swap", t, tries, handshakes, gated, joiner_dropped]   one player left at the moment another joined (McastProxy.tla), repeated *)
 McastNext ==
   /\ l < Len(Trace) /\ l' = l + 1 /\ pubs' = pubs
   /\ LET e == Trace[l'] IN
@@ -60,4 +61,9 @@ McastNext ==
                ELSE PrintT(<<"@BAD", ToJson([line |-> l', t |-> e.t, why |-> "C01:multicast-delivery-stops-for-the-others-when-the-first-player-leaves", ev |-> e])>>)
             /\ IF e.consumers_after_all_left = 0 THEN TRUE
                ELSE PrintT(<<"@BAD", ToJson([line |-> l', t |-> e.t, why |-> "C12:teardown-does-not-release-the-multicast-membership (the proxy keeps consuming after the last player left)", ev |-> e])>>)
+       [] e.e = "mcast-swap" ->
+            /\ IF e.joiner_dropped = 0 THEN TRUE
+               ELSE PrintT(<<"@BAD", ToJson([line |-> l', t |-> e.t, why |-> "C03:multicast-player-that-joins-while-another-leaves-is-disconnected", ev |-> e])>>)
+            /\ IF e.handshakes * 2 >= e.tries /\ e.gated * 2 >= e.tries THEN TRUE
+               ELSE PrintT(<<"@BAD", ToJson([line |-> l', t |-> e.t, why |-> "C03:vacuous-multicast-swap", ev |-> e])>>)
 ================================================================================
